@@ -143,3 +143,91 @@ func VerifC16SCTPWrite() {
 	}
 	verifnd.Reach("C16.write.done")
 }
+
+// a send queue whose Write takes time: the message is counted only after a scheduling point, so
+// that another goroutine can look at BufferedAmount in between (pion's stream.Write packetises
+// under its own lock before the bytes show up in the buffered amount)
+type verifSlowQueueStream struct{ verifQueueStream }
+
+func (s *verifSlowQueueStream) Write(p []byte) (int, error) {
+	verifnd.Yield()
+	return s.verifQueueStream.Write(p)
+}
+
+// VerifC16ConcurrentWriters: two goroutines writing to the same connection at once (1 byte,
+// 64 KiB or 128 KiB each, one or two messages each), the queue starting at an arbitrary level with a
+// possibly stale low-water signal, the stream's own Write taking time (a scheduling point before
+// the message is counted), under every interleaving of the two writers at the lock, the wake-up
+// channel and the stream write; the network drains everything once both are blocked or done.
+// The queue never exceeds the limit by more than one message plus one stale wake-up
+// (limit + limit/2 - the same bound as for a single writer); both writers are released.
+// verif:replay=native-then-model
+func VerifC16ConcurrentWriters() {
+	st := &verifSlowQueueStream{}
+	c := newSCTPConn(st, verifNetConn{}, 16)
+	unit := writeMaxBufferedAmount / 4 // 64 KiB
+	st.queued = unit * uint64(verifnd.Choose("initial-queue", 5))
+	st.maxSeen = st.queued
+	if verifnd.Bool("stale-signal") {
+		st.low()
+	}
+	sizes := []int{1, int(unit), int(2 * unit)}
+	per := 1 + verifnd.Choose("messages-per-writer", 2)
+	rounds := 1
+	if !verifnd.Symbolic() {
+		rounds = 300 // native replay cannot force the schedule
+	}
+	szA := sizes[verifnd.Choose("size-a", len(sizes))]
+	szB := sizes[verifnd.Choose("size-b", len(sizes))]
+	init, stale := st.queued, len(c.write)
+	for r := 0; r < rounds; r++ {
+		if r > 0 {
+			st = &verifSlowQueueStream{}
+			c = newSCTPConn(st, verifNetConn{}, 16)
+			st.queued, st.maxSeen = init, init
+			if stale > 0 {
+				st.low()
+			}
+		}
+		doneA, doneB := make(chan struct{}), make(chan struct{})
+		writer := func(n int, done chan struct{}) {
+			defer close(done)
+			for i := 0; i < per; i++ {
+				if _, err := c.Write(make([]byte, n)); err != nil {
+					return
+				}
+			}
+		}
+		go writer(szA, doneA)
+		go writer(szB, doneB)
+		verifnd.Quiesce() // every interleaving of the two writers up to the point where both are blocked or done
+		for i := 0; i < 6; i++ {
+			st.drain(st.queued)
+			verifnd.Settle()
+		}
+		released := true
+		for _, d := range []chan struct{}{doneA, doneB} {
+			if verifnd.Symbolic() {
+				select {
+				case <-d:
+				default:
+					released = false
+				}
+			} else {
+				select {
+				case <-d:
+				case <-time.After(2 * time.Second):
+					released = false
+				}
+			}
+		}
+		bounded := st.maxSeen <= writeMaxBufferedAmount+writeMaxBufferedAmount/2
+		if rounds > 1 && r < rounds-1 && released && bounded {
+			continue
+		}
+		verifnd.Assert(released, "C16.writers.both-released-once-the-network-drained")
+		verifnd.Assert(bounded, "C16.writers.queue-stays-bounded-with-concurrent-writers")
+		break
+	}
+	verifnd.Reach("C16.writers.done")
+}
